@@ -455,7 +455,7 @@ func (r *run) checkC04(end, msg string) error {
 	if err := r.common(end, msg); err != nil {
 		return err
 	}
-	if r.runErr != nil {
+	if r.runErr != nil && !(r.cfg.Cancel && errors.Is(r.runErr, context.Canceled)) {
 		return fmt.Errorf("RUN-ERROR: %v", r.runErr)
 	}
 	w := r.pools[0]
@@ -489,14 +489,14 @@ func (r *run) checkC04(end, msg string) error {
 				return fmt.Errorf("EARLY-DISCARD: token %d scheduled at %s discarded at %s, less than 2s late", i, t.Time.Sub(r.t0), at.Sub(r.t0))
 			}
 		case 0:
-			// a token may go unused only if ammo ran out
-			if r.cfg.Ammo < 0 {
+			// a token may go unused only if ammo ran out - or the run was cancelled while it was awaited
+			if r.cfg.Ammo < 0 && !r.cancelled {
 				return fmt.Errorf("LOST-TOKEN: token %d drawn but neither fired nor discarded", i)
 			}
 		}
 	}
 	toks, _ := r.cfg.RPS.tokens()
-	if r.cfg.Ammo < 0 || r.cfg.Ammo >= len(toks) {
+	if (r.cfg.Ammo < 0 || r.cfg.Ammo >= len(toks)) && !r.cancelled {
 		if len(w.TokenLog) != len(toks) && !r.cfg.PerInst {
 			return fmt.Errorf("TOKENS: %d tokens drawn, profile has %d", len(w.TokenLog), len(toks))
 		}
